@@ -431,10 +431,20 @@ func nativeReplay(repo, verif string, harnessDirs []string, replayPath string) (
 	ovb, _ := json.Marshal(map[string]interface{}{"Replace": repl})
 	ovPath := filepath.Join(tmp, "overlay.json")
 	os.WriteFile(ovPath, ovb, 0o644)
-	cmd := exec.Command("go", "test", "-vet=off", "-count=1", "-v", "-overlay", ovPath, "-run", "^TestVerifReplay$", "-timeout", "10m", "./"+rel)
-	cmd.Dir = repo
-	cmd.Env = append(os.Environ(), "GOFLAGS=-mod=mod", "GOPROXY=off", "GOSUMDB=off", "GOTOOLCHAIN=local",
+	// build the test binary (no chdir into the package: overlay-only packages have
+	// no directory on disk), then run it
+	bin := filepath.Join(tmp, "replay.test")
+	env := append(os.Environ(), "GOFLAGS=-mod=mod", "GOPROXY=off", "GOSUMDB=off", "GOTOOLCHAIN=local",
 		"VERIF_REPLAY="+replayPath, "VERIF_ENTRY="+fn, "VERIF_TIER="+doc.Tier)
+	build := exec.Command("go", "test", "-c", "-vet=off", "-overlay", ovPath, "-o", bin, "./"+rel)
+	build.Dir = repo
+	build.Env = env
+	if bout, err := build.CombinedOutput(); err != nil {
+		return false, "replay build failed: " + string(bout)
+	}
+	cmd := exec.Command(bin, "-test.run", "^TestVerifReplay$", "-test.v", "-test.count=1", "-test.timeout=10m")
+	cmd.Dir = tmp
+	cmd.Env = env
 	out, _ := cmd.CombinedOutput()
 	so := string(out)
 	ok := false
